@@ -113,9 +113,37 @@ class EG:
         a = self.num(d - 1)
         return 'str(%s)' % a[0], '(ECast BStr %s)' % a[1]
 
+    def comp(self, d):
+        """[proj for w8 in iter if cond] - the bound variable is variable 8 of the model"""
+        r = self.rnd
+        W = ('w8', '(EVar 8)')
+        kind = r.choice(['int', 'int', 'float', 'key', 'chr'])
+        if kind == 'int':
+            it = self.var([4]) if r.random() < .6 else ('[v0, 2, 7]', '(EList [(EVar 0); (ELit BInt); (ELit BInt)])')
+            projs = [('(w8 * 2)', '(EBin OMul (EVar 8) (ELit BInt))'), ('(w8 + v1)', '(EBin OAdd (EVar 8) (EVar 1))'), W, ('(w8 < v0)', '(ECmp (EVar 8) (EVar 0))'), ('[w8]', '(EList [(EVar 8)])'),
+                     ('(w8 / 2)', '(EBin ODiv (EVar 8) (ELit BInt))'), ('(w8, v3,)', '(ETuple [(EVar 8); (EVar 3)])')]
+            conds = [None, ('(w8 > 1)', '(ECmp (EVar 8) (ELit BInt))'), ('v2', '(EVar 2)')]
+        elif kind == 'float':
+            it = self.var([7])
+            projs = [('(w8 * v0)', '(EBin OMul (EVar 8) (EVar 0))'), W, ('int(w8)', '(ECast BInt (EVar 8))')]
+            conds = [None, ('(w8 < 1.5)', '(ECmp (EVar 8) (ELit BFloat))')]
+        elif kind == 'key':
+            it = self.var([5])
+            projs = [('(w8 + v3)', '(EBin OAdd (EVar 8) (EVar 3))'), W, ("v5[w8]", '(EIndex (EVar 5) (EVar 8))')]
+            conds = [None, ("(w8 == 'k')", '(ECmp (EVar 8) (ELit BStr))')]
+        else:
+            it = self.var([3])
+            projs = [W, ('(w8 * 2)', '(EBin OMul (EVar 8) (ELit BInt))')]
+            conds = [None]
+        pr, co = r.choice(projs), r.choice(conds)
+        return ('[%s for w8 in %s%s]' % (pr[0], it[0], ' if ' + co[0] if co else ''),
+                '(EComp 8 %s %s %s)' % (pr[1], it[1], '(Some %s)' % co[1] if co else 'None'))
+
     def lst(self, d):
         r = self.rnd
         k = r.random()
+        if d > 0 and r.random() < .18:
+            return self.comp(d)
         if d <= 0 or k < .35:
             return self.var([4, 7])
         if k < .8:
@@ -571,6 +599,7 @@ WITNESSES = [
     ('w_shl', 'def w_shl(a: int, c: bool) -> int:\n\tv = c << c\n\treturn 0\n', (3, True)),
     ('w_list', 'def w_list(a: int, c: bool) -> int:\n\tv = [1, 2.0]\n\treturn 0\n', (3, True)),
     ('w_neg', 'def w_neg(a: int, c: bool) -> int:\n\tv = -c\n\tw = ~c\n\treturn 0\n', (3, True)),
+    ('w_striter', "def w_striter(a: int, c: bool) -> int:\n\tv = [ch for ch in 'ab']\n\treturn 0\n", (3, True)),
 ]
 
 
